@@ -75,8 +75,8 @@ package minersc
 //@ func (SimpleNodes).reduce
 //@   prop C39
 //@   ensures[exact-count] maxNodes == min(limit, old(len(sns)))
-//@   at-call Perm assert[tie-range-starts-at-first-tied] 0 <= s && s < len(newNodes) ==> newNodes[s].TotalStaked == stake && (forall k in 0..s :: newNodes[k].TotalStaked != stake)
-//@   at-call Perm assert[tie-range-found] 0 <= s
+// (selectedNodes at that point: the x kept previous members, then the candidates taken without a draw)
+//@   at-call Perm assert[tied-candidates-only-through-the-draw] forall k in x..len(selectedNodes) :: selectedNodes[k].TotalStaked != stake
 //@   loop 2 header "for i, sn := range newNodes"
 //@   loop 2 invariant -1 <= s && s <= $idx && e == len(newNodes)
 //@   loop 2 invariant s >= 0 ==> newNodes[s].TotalStaked == stake
